@@ -89,13 +89,12 @@ Definition run_integral_eval (kint kev : list expr) (cs knot ts : list Z) : list
   let outs := kap kint (map of_bits (cs ++ knot)) in
   map to_bits outs ++ map (fun t => to_bits (kap1 kev (outs ++ [of_bits t]))) ts.
 
+(* linear::incr_linear as a function on knots: kernel outputs [end; c0; c1; prev.x; prev.y] *)
+Definition incr_k (kincr : list expr) (p c : F * F) : fseg * (F * F) :=
+  let o := kap kincr [fst p; snd p; fst c; snd c] in
+  ((nth 0 o fnan, [nth 1 o fnan; nth 2 o fnan]), (nth 3 o fnan, nth 4 o fnan)).
 Definition run_linear (kincr : list expr) (knots : list (list Z)) : list Z :=
-  let incr (p c : F * F) : fseg * (F * F) :=
-    match kap kincr [fst p; snd p; fst c; snd c] with
-    | [e; c0; c1; px; py] => ((e, [c0; c1]), (px, py))
-    | _ => ((fnan, []), (fnan, fnan))
-    end in
-  match linear incr (map mkknot knots) with
+  match linear (incr_k kincr) (map mkknot knots) with
   | None => PANIC
   | Some r => dump_segs r
   end.
